@@ -520,7 +520,23 @@ func (d *coreDrv) exec(name string, op map[string]interface{}, line map[string]i
 		r := &si.AllocationRelease{PartitionName: corePart, ApplicationID: jsonStr(op["app"]), AllocationKey: jsonStr(op["key"]), TerminationType: termTypes[jsonStr(op["type"])]}
 		d.s.cc.VerifHandleAllocations(&si.AllocationRequest{RmID: coreRM, Releases: &si.AllocationReleasesRequest{AllocationsToRelease: []*si.AllocationRelease{r}}})
 	case "schedule":
-		line["out"] = d.s.cc.VerifSchedule()
+		// "interrupt": an RM request (release by key, release of all allocations, application removal, node decommission)
+		// that the RM event goroutine would handle between the scheduling decision and its confirmation
+		// (PartitionContext.allocate): run at the yield point, once
+		if in, ok := op["interrupt"].(map[string]interface{}); ok {
+			done := false
+			scheduler.VerifYieldHook = func(point string) {
+				if point == "allocate" && !done {
+					done = true
+					d.exec(jsonStr(in["op"]), in, map[string]interface{}{})
+				}
+			}
+			line["out"] = d.s.cc.VerifSchedule()
+			scheduler.VerifYieldHook = nil
+			line["interrupted"] = done
+		} else {
+			line["out"] = d.s.cc.VerifSchedule()
+		}
 	case "ph-timeout":
 		fired := false
 		if app := d.s.part.GetApplication(jsonStr(op["app"])); app != nil {
